@@ -52,7 +52,19 @@ function defaultsSrc(c) {
 }
 function typeSrc(c) { return `{ ${c.props.map((p) => PROPS[p].decl).join('; ')} }`; }
 
+// how the setup function is written around `props: T = D` (P) ; what another parameter's default is must not matter
+const CTX_DEFAULT = "{ a: 'ctxa', b: 77, q: 'ctxq', 'c-d': 'ctxcd', d1: d1, f: dfn, m: dfn, fu: dfn }";
+const SETUPS = {
+  arrow: (P) => `(${P}) => () => null`,
+  fnExpr: (P) => `function (${P}) { return () => null; }`,
+  fnNamed: (P) => `function setup(${P}, ctx: any) { return () => null; }`,
+  arrowCtxDefault: (P) => `(${P}, ctx: any = ${CTX_DEFAULT}) => () => null`,
+  arrowCtxDynDefault: (P) => `(${P}, { emit }: any = dflt) => () => null`,
+  fnCtxDefault: (P) => `function (${P}, ctx: any = ${CTX_DEFAULT}) { return () => null; }`,
+  asyncArrow: (P) => `async (${P}) => () => null`,
+};
 function render(c) {
+  if (c.sp === 'O') return `${PRE}export const C = defineComponent(${SETUPS[c.setup](`props: ${typeSrc(c)}`)});\n`;
   if (c.sp === 'L') {
     // leak: a component with static defaults, then one without a default sharing the prop names
     const t = typeSrc(c);
@@ -62,7 +74,7 @@ function render(c) {
     return `${PRE}${first}\n${mid}${second}\n`;
   }
   const d = defaultsSrc(c);
-  return `${PRE}__out.W = () => (${d});\nexport const C = defineComponent((props: ${typeSrc(c)} = ${d}) => () => null);\n`;
+  return `${PRE}__out.W = () => (${d});\nexport const C = defineComponent(${SETUPS[c.setup || 'arrow'](`props: ${typeSrc(c)} = ${d}`)});\n`;
 }
 function requests(c) { return [{ src: render(c), ts: true, want: ['eval'], opts: JSON.stringify({ resolveType: true }) }]; }
 
@@ -91,6 +103,13 @@ function judge(c, resps) {
   const names = new Names();
   const viol = [];
   const calls = res.calls.filter((x) => x.who === 'vue');
+  if (c.sp === 'O') {
+    const props = (calls[0] && calls[0].args[1] && calls[0].args[1].props) || {};
+    const leaked = c.props.filter((p) => props[keyOf(p)] && Object.prototype.hasOwnProperty.call(props[keyOf(p)], 'default'));
+    if (leaked.length) viol.push({ clause: 'no-default-no-default', diff: 'default:from-another-parameter', msg: `the props parameter has no default, yet [${leaked}] got one (another parameter has a default)`, observed: leaked });
+    if (/mergeDefaults/.test(r.printed || '')) viol.push({ clause: 'no-default-no-default', diff: 'mergeDefaults:used', msg: 'mergeDefaults is applied although the props parameter has no default', observed: r.printed });
+    return { viol, obs: 'O:' + stable(leaked), clauses: ['no-default-no-default'] };
+  }
   if (c.sp === 'L') {
     const last = calls[calls.length - 1];
     const props = (last && last.args[1] && last.args[1].props) || {};
@@ -161,6 +180,21 @@ function spaces(tier) {
       *gen() { for (const props of propSets(3)) for (const whole of Object.keys(WHOLE)) if (whole !== 'none') yield { sp: 'D', props, forms: props.map(() => 'absent'), whole }; },
     },
     {
+      name: 'F:setup-forms',
+      bounds: { setups: Object.keys(SETUPS), note: 'the same defaults under every way of writing the setup function, incl. a second parameter that has a default of its own (static or dynamic); and (O) only the other parameter has a default' },
+      *gen() {
+        const canon = (p) => (PROPS[p].kind === 'fn' ? 'method' : PROPS[p].kind === 'fnUnion' ? 'fnIdent' : PROPS[p].lit ? 'literal' : 'identExpr');
+        for (const props of propSets(2)) for (const setup of Object.keys(SETUPS)) {
+          if (setup !== 'arrow') {
+            yield { sp: 'D', props, forms: props.map(canon), extra: false, setup };
+            yield { sp: 'D', props, forms: props.map((p, i) => (i === 0 ? canon(p) : 'absent')), extra: false, setup };
+            for (const whole of ['ident', 'spread']) yield { sp: 'D', props, forms: props.map(() => 'absent'), whole, setup };
+          }
+          yield { sp: 'O', props, forms: props.map(() => 'absent'), setup };
+        }
+      },
+    },
+    {
       name: 'L:two-components',
       bounds: { note: 'a component with static defaults followed (optionally after one with a dynamic default) by a component without any default that shares the prop names' },
       *gen() { for (const props of propSets(2)) for (const mid of ['none', 'dynamic']) { const forms = props.map((p) => (PROPS[p].kind === 'fn' ? 'method' : PROPS[p].kind === 'fnUnion' ? 'fnIdent' : PROPS[p].lit ? 'literal' : 'identExpr')); yield { sp: 'L', props, forms, mid }; } },
@@ -169,6 +203,8 @@ function spaces(tier) {
 }
 
 function* shrink(c) {
+  if (c.setup && c.setup !== 'arrow') yield Object.assign({}, c, { setup: 'arrow' });
+  if (c.sp === 'O') { for (let i = 0; i < c.props.length; i++) if (c.props.length > 1) yield Object.assign({}, c, { props: c.props.slice(0, i).concat(c.props.slice(i + 1)), forms: c.forms.slice(1) }); return; }
   if (c.sp === 'L') { if (c.mid !== 'none') yield Object.assign({}, c, { mid: 'none' }); for (let i = 0; i < c.props.length; i++) if (c.props.length > 1) yield Object.assign({}, c, { props: c.props.slice(0, i).concat(c.props.slice(i + 1)), forms: c.forms.slice(0, i).concat(c.forms.slice(i + 1)) }); return; }
   for (let i = 0; i < c.props.length; i++) if (c.props.length > 1) yield Object.assign({}, c, { props: c.props.slice(0, i).concat(c.props.slice(i + 1)), forms: c.forms.slice(0, i).concat(c.forms.slice(i + 1)) });
   if (c.extra) yield Object.assign({}, c, { extra: false });
@@ -182,6 +218,6 @@ module.exports = {
   rule: 'complete product prop map (≤2, thorough ≤3, of plain / quoted / hyphenated / function-typed / method props) × per-prop default entry form (absent, literal, quoted key, computed-literal key, identifier, member, call, shorthand, getter, function identifier, arrow value, function expression, method, computed-literal method, async method, computed identifier key, computed expression key) × extra key, plus whole-default dynamic forms (identifier, spread, call, spread + static) and two-component modules; each state is transformed by the real visitor with resolveType on and executed: the harness evaluates the written default object W itself, and for every prop the value Vue\'s resolvePropValue algorithm yields from the emitted props option (factories called iff Vue would call them; the emitted mergeDefaults call evaluated with the transcribed algorithm) must equal W[k] (functions compared by result; props without a written default have none). Distinct = distinct resolved-default vectors.',
   assumptions: ['Vue resolvePropValue / mergeDefaults transcribed in the mock runtime', 'defaults generated well-typed (function-valued defaults only for function-typed props)', 'SWC TypeScript parser; TS eraser of the driver'],
   spaces, requests, judge, shrink,
-  caseKey: (c) => (c.sp === 'L' ? `L:${typeSrc(c)} = ${defaultsSrc(c)} ; ${c.mid === 'dynamic' ? 'dynamic ; ' : ''}none` : `D:${typeSrc(c)} = ${defaultsSrc(c)}`),
+  caseKey: (c) => (c.sp === 'O' ? `O:${SETUPS[c.setup]('props: ' + typeSrc(c))}` : c.sp === 'L' ? `L:${typeSrc(c)} = ${defaultsSrc(c)} ; ${c.mid === 'dynamic' ? 'dynamic ; ' : ''}none` : `D:${typeSrc(c)} = ${defaultsSrc(c)}${c.setup && c.setup !== 'arrow' ? ' in ' + c.setup : ''}`),
   depth: (c) => c.props.length + c.forms.filter((f) => f !== 'absent').length,
 };
